@@ -177,6 +177,49 @@ Theorem c17_self_tolerance_after_training :
 Proof. exact self_tolerance_proof. Qed.
 Print Assumptions c17_self_tolerance_after_training.
 
+(* what "successful training on a window" learns, on ANY scale: the features of a
+   window are arbitrary rationals (a confidence reported as a percentage or as a
+   log-probability, a latency in milliseconds or made negative by clock skew — the
+   recording API accepts them all and training accepts such windows); each learned
+   interval contains the window's own value, the learned baseline finds no violation
+   in the window, the watcher starts fresh, memory and tolerance record are untouched *)
+Theorem c17_trained_baseline_contains_window :
+  forall rnd : Q -> Q,
+    (forall x y, (x <= y)%Q -> (rnd x <= rnd y)%Q) ->
+    forall g s p s1,
+      (0 <= g_tol g)%Q -> representable rnd p ->
+      (forall a, p_canary p = Some a -> (0 <= a)%Q) ->
+      sys_step rnd false g s (OTrain (Some p)) = (s1, OutTrain Positive) ->
+      exists t, s_tcell s1 = Some t /\ t_prof t = train_profile rnd (g_tol g) p /\
+                check (t_prof t) p = [] /\
+                within (ol_lo (t_prof t)) (ol_hi (t_prof t)) (p_ol p) = true /\
+                within (rt_lo (t_prof t)) (rt_hi (t_prof t)) (p_rt p) = true /\
+                within (cf_lo (t_prof t)) (cf_hi (t_prof t)) (p_cf p) = true /\
+                is_anergic t = false /\ t_anom t = 0 /\ t_manual t = false /\
+                s_mem s1 = s_mem s /\ s_rec s1 = s_rec s /\
+                trained_obs s1 (OTrain (Some p)) (OutTrain Positive) = [88; 0].
+Proof. exact trained_baseline_proof. Qed.
+Print Assumptions c17_trained_baseline_contains_window.
+
+(* ... and the agent is never reported, let alone isolated, for its own baseline: after
+   successful training on a window, in EVERY later history that does not retrain —
+   manual flags, stored / imported / recalled threats carrying the window's own
+   hashes, resets, false-alarm resets, tolerance-record edits, inspections of other
+   fingerprints in between, any rules — every inspection of that same window (the
+   first, the third, the hundredth) is NONE / IGNORE with no violations *)
+Theorem c17_trained_window_stays_no_threat :
+  forall rnd : Q -> Q,
+    (forall x y, (x <= y)%Q -> (rnd x <= rnd y)%Q) ->
+    forall g s p s1 ops s2 out,
+      (0 <= g_tol g)%Q -> representable rnd p ->
+      (forall a, p_canary p = Some a -> (0 <= a)%Q) ->
+      sys_step rnd false g s (OTrain (Some p)) = (s1, OutTrain Positive) ->
+      Forall (fun o => replaces_watcher o = false) ops ->
+      In (s2, OInspect (Some p), out) (run rnd false g s1 ops) ->
+      exists r sp, out = OutResp r sp /\ silent r /\ r_viol r = [].
+Proof. exact trained_window_stays_proof. Qed.
+Print Assumptions c17_trained_window_stays_no_threat.
+
 (* The display.  For every history of API calls (record_observation,
    record_canary_result, clear, inspect, train_agent, and any other operation)
    from any display whose window is not over-full, and every fingerprint
